@@ -33,7 +33,8 @@ REQUIRED_BUCKETS = {"quick": ["op:+", "op:*", "op:@", "nested:product-in-sum", "
                               "magnetic:with-python-bystander", "component-with-empty-mesh",
                               "no-sld-parameter-in-mixture", "magnetic:no-positive-component",
                               "precision:single", "magnetic:bystander-with-direction-angles",
-                              "dispersity:more-distributions-than-one-kernel-loops"]}
+                              "dispersity:more-distributions-than-one-kernel-loops", "component-scale:zero",
+                              "component-scale:negative", "component-scale:tiny"]}
 REQUIRED_BUCKETS["thorough"] = REQUIRED_BUCKETS["quick"]
 
 SFACTORS = ["hardsphere", "hayter_msa", "squarewell", "stickyhardsphere"]
@@ -331,6 +332,16 @@ def run_case(case, rec):
         xs = 1.0
         if scale_name is not None:
             xs = float(rng.uniform(0.2, 2.0))
+            r_ = rng.random()
+            if r_ < 0.12:
+                xs = float(rng.choice([0.0, -0.0]))     # a component switched off by its scale
+                rec.bucket("component-scale:zero")
+            elif r_ < 0.2:
+                xs = -xs                                 # (a difference of two models)
+                rec.bucket("component-scale:negative")
+            elif r_ < 0.26:
+                xs = float(10**rng.uniform(-12, -6))
+                rec.bucket("component-scale:tiny")
             cpars[scale_name] = xs
         term = np.ones(len(qv[0]))
         for pairs, (f, i, lp, tags) in zip(facs, row):
